@@ -247,8 +247,8 @@ func mkWitness(tr string, pool int, cat string, in []byte, e execution, ex *expe
 	if len(c) > 12 {
 		c = c[:12]
 	}
-	return witness{Transport: tr, Pool: pool, Category: cat, Input: clip(string(in), 3000), InputLen: len(in),
-		Output: clip(string(e.out), 3000), Calls: c, Expected: describeExpect(ex), Detail: detail}
+	return witness{Transport: tr, Pool: pool, Category: cat, Input: clip(string(in), 40000), InputLen: len(in),
+		Output: clip(string(e.out), 40000), Calls: c, Expected: describeExpect(ex), Detail: detail}
 }
 
 // structural key of an input = category + container + sorted request kinds
